@@ -40,7 +40,15 @@ US8 == [nat |-> 8, ncell |-> 4, cell |-> <<1, 1, 2, 2, 3, 3, 4, 4>>,
         lo |-> <<1, 2, 3, 4, 5, 6, 7, 8>>, hi |-> <<1, 2, 4, 3, 5, 6, 7, 8>>, single |-> <<>>,
         sh |-> << <<1, 2, 3, 4, 5, 6, 7, 8>> >>]
 
-UOf(s) == CASE s = "S6" -> US6 [] s = "S7" -> US7 [] s = "S4" -> US4 [] s = "S8" -> US8
+\* K5: 5 cells x 2 interleaved atoms. Mode "keys" uses the first atom of each cell only and the replayer makes every
+\* cell one whole chunk (or two): the pairs then enumerate EVERY alignment of chunk keys between two bitmaps (keys
+\* private to either side before / between / after shared keys), each chunk holding a texture (array / bitmap / run).
+US10 == [nat |-> 10, ncell |-> 5, cell |-> <<1, 1, 2, 2, 3, 3, 4, 4, 5, 5>>,
+         w |-> <<N1(2), N1(3), N1(4), N1(4), N1(70000), N1(5), N1(9), N1(9), N1(1), N1(6)>>,
+         lo |-> <<1, 2, 3, 4, 5, 6, 7, 8, 9, 10>>, hi |-> <<1, 2, 3, 4, 5, 6, 7, 8, 9, 10>>, single |-> <<>>,
+         sh |-> << <<1, 2, 3, 4, 5, 6, 7, 8, 9, 10>> >>]
+
+UOf(s) == CASE s = "S6" -> US6 [] s = "S7" -> US7 [] s = "S4" -> US4 [] s = "S8" -> US8 [] s = "K5" -> US10
 
 VARIABLES content, hist
 vars == <<content, hist>>
@@ -126,6 +134,7 @@ Eff(c, k) == IF k.op \in {"SelectAuto", "ItNew", "ItTake", "ItPeek", "ItAdvance"
 Init ==
   /\ (Mode # "cow" => hist = <<>>)
   /\ CASE Mode = "pairs" -> \E S1, S2 \in SUBSET A : content = [Empty EXCEPT ![1] = S1, ![2] = S2]
+       [] Mode = "keys" -> \E S1, S2 \in SUBSET {a \in A : a % 2 = 1} : content = [Empty EXCEPT ![1] = S1, ![2] = S2]
        [] Mode \in {"step", "serial", "iter", "oneshot"} -> \E S1 \in SUBSET A : content = [Empty EXCEPT ![1] = S1]
        [] Mode = "legal" -> content = Empty
        [] Mode = "agg" -> \E S1, S2 \in SUBSET A : content = [Empty EXCEPT ![1] = S1, ![2] = S2, ![3] = A]
@@ -136,7 +145,7 @@ Init ==
                                         [op |-> "Clone", dst |-> 2, x |-> 1], Build(3, S3)>>
 
 Calls ==
-  CASE Mode = "pairs" -> PairCalls
+  CASE Mode \in {"pairs", "keys"} -> PairCalls
     [] Mode = "step" -> MutCalls(1) \cup QueryCalls(1) \cup TransCalls(1)
     [] Mode = "agg" -> AggCalls
     [] Mode = "serial" -> SerialCalls(1)
@@ -162,7 +171,7 @@ Spec == Init /\ [][Next]_vars
 
 \* ---- emission of scripts for the replayer -----------------------------------------------------------
 Prefix(c) ==
-  CASE Mode = "pairs" -> <<Build(1, c[1]), Build(2, c[2])>>
+  CASE Mode \in {"pairs", "keys"} -> <<Build(1, c[1]), Build(2, c[2])>>
     [] Mode \in {"step", "serial", "oneshot"} -> <<Build(1, c[1])>>
     [] Mode = "iter" -> <<>>
     [] Mode = "legal" -> <<>>
